@@ -56,7 +56,7 @@ Proof.
   unfold mk_tsp. destruct (is_available d) eqn:Ea; cbn [negb]; [|discriminate].
   destruct ow as [w|].
   - destruct (negb (is_numeric d)); [discriminate|].
-    destruct w as [k c e|k i e|k f|k f|k f].
+    destruct w as [k c e|k i e|k f|k f|k f|i e].
     2: destruct k; [destruct (can_cast_from_f64 d); [|discriminate]|].
     all: intro E; inversion E; cbn; repeat split; auto.
   - intro E; inversion E; cbn; repeat split; auto.
